@@ -279,11 +279,34 @@ func returnEdges(fn *ssa.Function) []retEdge {
 		ev := ret.Results[idx]
 		if phi, ok := ev.(*ssa.Phi); ok && phi.Block() == b {
 			for i, e := range phi.Edges {
-				out = append(out, retEdge{ret, b.Preds[i], classifyErrValue(e), e.String()})
+				kind := classifyErrValue(e)
+				if kind == "unknown" {
+					if k := nilKnownAt(e, b.Preds[i]); k != "" {
+						kind = k
+					} else if len(b.Preds[i].Instrs) > 0 {
+						// the edge itself may be the nil / non-nil edge of the test
+						if ifi, ok := b.Preds[i].Instrs[len(b.Preds[i].Instrs)-1].(*ssa.If); ok && b.Preds[i].Succs[0] != b.Preds[i].Succs[1] {
+							if x, trueIsNil, ok := nilTestOf(ifi.Cond); ok && x == e {
+								if (b.Preds[i].Succs[0] == b) == trueIsNil {
+									kind = "ok"
+								} else {
+									kind = "err"
+								}
+							}
+						}
+					}
+				}
+				out = append(out, retEdge{ret, b.Preds[i], kind, e.String()})
 			}
 			continue
 		}
 		kind := classifyErrValue(ev)
+		if kind == "unknown" {
+			// the error of a call, returned under a test of that same value
+			if k := nilKnownAt(ev, b); k != "" {
+				kind = k
+			}
+		}
 		if kind == "unknown" {
 			// named result captured by a closure: the return loads a cell; the value is what the
 			// last store on the straight-line path to the return put there
@@ -413,6 +436,11 @@ func (c *Ctx) checkDomain(r *fnRef, spec domainSpec) {
 				}
 			}
 		case "err":
+			if !spec.NoOver {
+				// the error of a validating helper passed on: the over-rejection direction is decided
+				// in the helper, with the domain rewritten over its parameters
+				c.checkDomainInHelper(r, lc, e, D, spec.Rule)
+			}
 			if spec.NoOver || !lc.controlMentions(e.block, roleAtoms) {
 				continue
 			}
@@ -430,6 +458,86 @@ func (c *Ctx) checkDomain(r *fnRef, spec domainSpec) {
 	}
 	if nOK == 0 {
 		L.Unknown(spec.Rule, r.label, "success return", c.P.Pos(fn.Pos()), "no return with a nil error could be classified")
+	}
+}
+
+// checkDomainInHelper: the error return e of r passes on the error of a static call to a helper
+// of the module; every error return of the helper that is controlled by a comparison on a
+// (translated) role must be unreachable for in-domain arguments.
+func (c *Ctx) checkDomainInHelper(r *fnRef, lc *linCtx, e retEdge, D []cons, rule string) {
+	idx := errResultIndex(lc.fn)
+	if idx < 0 || idx >= len(e.ret.Results) {
+		return
+	}
+	ev := e.ret.Results[idx]
+	if phi, ok := ev.(*ssa.Phi); ok && phi.Block() == e.ret.Block() {
+		for i, p := range e.ret.Block().Preds {
+			if p == e.block {
+				ev = phi.Edges[i]
+			}
+		}
+	}
+	call := errCallOf(stripConvKeepIface(ev))
+	if call == nil {
+		return
+	}
+	cc := call.Common()
+	f := cc.StaticCallee()
+	if f == nil || len(f.Blocks) == 0 || f.Pkg == nil || !strings.HasPrefix(f.Pkg.Pkg.Path(), c.P.ModPath) || len(cc.Args) != len(f.Params) || f == lc.fn {
+		return
+	}
+	// inverse substitution: caller atom -> helper parameter
+	inv := map[string]string{}
+	for i, p := range f.Params {
+		if isIntType(p.Type()) {
+			l := lc.of(cc.Args[i])
+			if as := l.atoms(); len(as) == 1 && l.c == 0 && l.t[as[0]] == 1 {
+				inv[as[0]] = p.Name()
+			}
+		} else {
+			inv[lc.canon(cc.Args[i])] = p.Name()
+		}
+	}
+	var DD []cons
+	roleAtoms := map[string]bool{}
+	for _, d := range D {
+		ne := linConst(d.e.c)
+		for a, k := range d.e.t {
+			na, ok := inv[a]
+			if !ok {
+				// compound atom L(x), N(x): rewrite the identifier inside
+				done := false
+				for from, to := range inv {
+					if strings.HasSuffix(a, "("+from+")") {
+						na = a[:len(a)-len(from)-1] + to + ")"
+						done = true
+					}
+				}
+				if !done {
+					return // the domain cannot be expressed over the helper's parameters: nothing is claimed
+				}
+			} else {
+				roleAtoms[na] = true
+			}
+			ne = ne.add(linAtom(na).scale(k))
+		}
+		DD = append(DD, cons{ne, d.why})
+	}
+	hlc := newLinCtx(c, f)
+	for _, he := range returnEdges(f) {
+		if he.kind != "err" || !hlc.controlMentions(he.block, roleAtoms) {
+			continue
+		}
+		ok, decided, det := hlc.infeasibleAll(he.block, DD)
+		name := "rejects nothing inside the domain (helper " + f.Name() + ")"
+		switch {
+		case ok:
+			c.L.OK(rule, r.label, name, c.P.Pos(he.ret.Pos()), det)
+		case decided:
+			c.L.Bad(rule, r.label, name, c.P.Pos(he.ret.Pos()), "an error return of the helper is reachable for in-domain arguments: "+det)
+		default:
+			c.L.Unknown(rule, r.label, name, c.P.Pos(he.ret.Pos()), det)
+		}
 	}
 }
 
